@@ -35,6 +35,7 @@ func checkC14(ctx *Ctx, r *Report) {
 	c14DateTimeFormatter(ctx, r)
 	c14FourthRound(ctx, r)
 	c14FifthRound(ctx, r)
+	c14GoConverterBuffer(ctx, r)
 	c02GoRuntimeDefines(ctx, r)
 }
 
@@ -1219,4 +1220,59 @@ func c14FifthRound(ctx *Ctx, r *Report) {
 	}
 	r.Count("hunted clauses of the converter generator (5th round)", n)
 	r.Floor("hunted clauses of the converter generator (5th round)", 5)
+}
+
+// c14GoConverterBuffer: the Go converter writes each option call into a `buffer` variable. Go refuses an unused
+// variable: the declaration must be subject to the same condition as its only uses — there being mappings to convert.
+// (A builder can have no option at all: a struct whose fields are all fixed by the schema.)
+func c14GoConverterBuffer(ctx *Ctx, r *Report) {
+	ts, err := loadTemplates(ctx, "golang")
+	if err != nil {
+		r.Undecided("templates of golang: %v", err)
+		return
+	}
+	tree := ts.trees["converter"]
+	if tree == nil {
+		r.Undecided("anchor lost: golang template \"converter\"")
+		return
+	}
+	declared, conditional := false, false
+	var visit func(l *parse.ListNode, underMappings bool)
+	visit = func(l *parse.ListNode, underMappings bool) {
+		if l == nil {
+			return
+		}
+		for _, c := range l.Nodes {
+			switch x := c.(type) {
+			case *parse.TextNode:
+				if strings.Contains(string(x.Text), "var buffer ") {
+					declared = true
+					if underMappings {
+						conditional = true
+					}
+				}
+			case *parse.IfNode:
+				under := underMappings || strings.Contains(x.Pipe.String(), ".Converter.Mappings")
+				visit(x.List, under)
+				visit(x.ElseList, underMappings)
+			case *parse.WithNode:
+				under := underMappings || strings.Contains(x.Pipe.String(), ".Converter.Mappings")
+				visit(x.List, under)
+				visit(x.ElseList, underMappings)
+			case *parse.RangeNode:
+				under := underMappings || strings.Contains(x.Pipe.String(), ".Converter.Mappings")
+				visit(x.List, under)
+				visit(x.ElseList, underMappings)
+			}
+		}
+	}
+	visit(tree.Root, false)
+	if !declared {
+		// no buffer variable at all: nothing can be left unused
+		r.OK("skeleton/go-converter-buffer-conditional", "golang converter template declares its buffer", token.NoPos, "no buffer variable is declared")
+		return
+	}
+	r.Count("buffer declarations of the Go converter template", 1)
+	r.Check(conditional, "skeleton/go-converter-buffer-conditional", "golang converter template declares its buffer", token.NoPos, ts.file["converter"]+": the buffer is declared under the test that there are mappings",
+		ts.file["converter"]+": `var buffer strings.Builder` is declared whatever the builder: for a builder without options (`OnlyConst: {kind: \"x\"}`) nothing uses it — declared and not used: buffer, the package does not compile")
 }
